@@ -7,6 +7,14 @@ From Coq Require Import String.
 
 Lemma C10_letters_obl : env_letters_ok the_env = true.
 Proof. vm_cast_no_check (eq_refl true). Qed.
+(* what the property means by whitespace: the code points Unicode calls white space (str.isspace / \s in a str pattern):
+   tab, LF, VT, FF, CR, FS..US, space, NEL, NBSP, Ogham space, en quad .. hair space, LS, PS, NNBSP, MMSP, ideographic space *)
+Definition ws_required : list N :=
+  [9; 10; 11; 12; 13; 28; 29; 30; 31; 32; 133; 160; 5760; 8192; 8193; 8194; 8195; 8196; 8197; 8198; 8199; 8200; 8201; 8202;
+   8232; 8233; 8239; 8287; 12288]%N.
+Lemma C10_ws_obl : forallb (is_space the_env) ws_required = true.
+Proof. vm_cast_no_check (eq_refl true). Qed.
+
 Lemma C10_parts_obl : bic_parts_ok the_bic_cfg = true.
 Proof. vm_cast_no_check (eq_refl true). Qed.
 Lemma C10_group_obl : Z.eqb (ac_group the_acc_cfg) 4 = true.
